@@ -143,7 +143,9 @@ fn run_item(chain: &SimChain, comp: &mut SimCompiler, item: &HistItem, log: &mut
     // one compiler op, and by the scratch run of DirectCompile to record the rounds)
     let plain = matches!(item.ending, Ending::Natural | Ending::ErrAtCall(_) | Ending::CancelAfter(_)) && !comp.record;
     let (outcome, polls, compiles) = if plain {
-        let (o, polls) = resolve_plain(&w, &item.tx, &item.args, &mut comp.inner, item.max_rounds, cancel);
+        #[allow(unused_imports)]
+        use crate::rsim::ThroughPointee as _;
+        let (o, polls) = crate::rsim::Handle(&mut comp.inner).resolve(&w, &item.tx, &item.args, item.max_rounds, cancel);
         (o, polls, usize::MAX)
     } else {
         let res = resolve_once(&w, &item.tx, &item.args, comp, item.max_rounds, cancel);
